@@ -44,6 +44,9 @@ type Frame struct {
 	con    *Contract // contract whose loop specs apply to this frame
 	env    *SpecEnv  // top frame: contract env (old values)
 	parent *Frame
+	noReturn    bool // the instruction just executed never returns (os.Exit / callee that always exits)
+	sawNoReturn bool // some path of this frame ended in a process exit
+	pcNarrow    Term // after a call: condition under which the callee returned normally
 }
 
 func (e *Exec) newFrame(fn *ssa.Function, con *Contract) (*Frame, error) {
@@ -230,6 +233,16 @@ func (fr *Frame) run(st0 *State, pc0 Term) {
 				ended = true
 				break
 			}
+			if fr.noReturn {
+				fr.noReturn = false
+				fr.sawNoReturn = true
+				ended = true
+				break
+			}
+			if fr.pcNarrow.S != "" {
+				pc = fr.pcNarrow
+				fr.pcNarrow = Term{}
+			}
 			if len(e.errors) > 20 {
 				return
 			}
@@ -360,7 +373,18 @@ func (e *Exec) globalAddr(st *State, g *ssa.Global) Val {
 	}
 	if _, ok := st.cell[r]; !ok {
 		elem := g.Type().(*types.Pointer).Elem()
-		st.cell[r] = e.freshVal(st, "g_"+g.Name(), elem, "global", True)
+		gv := e.freshVal(st, "g_"+g.Name(), elem, "global", True)
+		st.cell[r] = gv
+		if g.Pkg != nil && g.Pkg.Pkg.Path() == "os" && g.Name() == "Args" && gv.K == vSlice {
+			// os.Args always holds the program name
+			e.assume(Cmp(">=", gv.Len, IntLit(1)))
+		}
+		if gv.K == vTerm && e.p.U.IsPtr(gv.T.Sort) {
+			// package-level pointer variables (command-line flags registered by package flag at
+			// initialisation) are assumed non-nil
+			e.assume(Not(Eq(gv.T, e.p.U.Zero(gv.T.Sort))))
+			e.note("assumed: package-level pointer variables (flag.Bool/String/... results) are non-nil")
+		}
 	}
 	return Val{K: vAddr, R: r}
 }
